@@ -34,7 +34,9 @@ registry! {
     "C15" => c15,
     "C16" => c16,
     "C17" => c17,
+    "C18" => c18,
     "C19" => c19,
+    "C20" => c20,
     "C21" => c21,
     "C23" => c23,
     "C24" => c24,
@@ -42,6 +44,9 @@ registry! {
     "C26" => c26,
     "C27" => c27,
     "C28" => c28,
+    "C29" => c29,
+    "C30" => c30,
+    "C31" => c31,
     "C32" => c32,
     "C34" => c34,
     "C35" => c35,
